@@ -15,7 +15,9 @@ def gen_line_unit(rng, ver, le, asz, lstr, comp_dir, primary):
     std_lens = [0, 1, 1, 1, 1, 0, 0, 0, 1, 0, 0, 1][:opcode_base - 1]
     mil = rng.choice([1, 1, 4])
     line_base, line_range = -5, 14
-    hdr = bytes([mil]) + (bytes([1]) if ver >= 4 else b'') + bytes([1]) + struct.pack('b', line_base) + bytes([line_range, opcode_base]) + bytes(std_lens)
+    # VLIW tables only in little-endian files: for PPC64 (the big-endian 64-bit machine here) the clone deliberately keeps the old row layout
+    maxops = rng.choice([1, 1, 1, 4]) if ver >= 4 and le else 1
+    hdr = bytes([mil]) + (bytes([maxops]) if ver >= 4 else b'') + bytes([1]) + struct.pack('b', line_base) + bytes([line_range, opcode_base]) + bytes(std_lens)
     ndirs = rng.choice([0, 1, 2, 3])
     dirs = rng.sample(DIRS, ndirs)
     nfiles = rng.choice([1, 2, 4])
@@ -175,8 +177,14 @@ def gen_cfa_program(rng, caf, daf, cfa_reg, saved, n):
                 out += b'\x05' + uleb(r) + uleb(off)
         elif k < 0.76:
             out += b'\x0d' + uleb(rng.choice(saved))
-        elif k < 0.8:
+        elif k < 0.78:
             out += b'\x0c' + uleb(cfa_reg) + uleb(cfa_off)
+        elif k < 0.8:
+            # the signed, factored forms: with a negative data alignment factor a positive operand is a negative offset
+            if rng.random() < 0.5:
+                out += b'\x13' + sleb(rng.choice([1, 2, -2, 5]))
+            else:
+                out += b'\x12' + uleb(rng.choice(saved)) + sleb(rng.choice([1, -1, 3]))
         elif k < 0.86:
             out += b'\x0a'
             depth += 1
@@ -327,6 +335,8 @@ def gen_names_file(rng):
         body += b'\0' * (-(len(aranges) + 4 + len(body)) % (2 * asz))
         for lo, ln in ranges:
             body += struct.pack(A, lo) + struct.pack(A, ln)
+        if rng.random() < 0.2:
+            body += struct.pack(A, code + 0x40) + struct.pack(A, 0)        # an empty function: address without length
         body += struct.pack(A, 0) * 2
         body += b'\0' * (-(len(body) + 4) % (2 * asz))
         aranges += struct.pack(E + 'I', len(body)) + body
@@ -371,11 +381,13 @@ def gen_loc_file(rng):
         ver = rng.choice([2, 3, 4])
         low = rng.choice([0x1000, 0x401000]) + 0x10000 * i
         size = 0x400
-        cu = dwtab.CU(version=ver, asz=asz, le=le)
+        fmt = rng.choice([32, 32, 64])          # 64-bit DWARF format: section offsets are 8 bytes (data8 before version 4)
+        cu = dwtab.CU(version=ver, asz=asz, le=le, fmt=fmt)
         cu.root_name = 'unit%d.c' % i
         hp = (0x12, 0x01, struct.pack(A, low + size), None) if ver < 4 else (0x12, 0x07 if asz == 8 else 0x06, struct.pack(A, size), None)
         cu.root_attrs = [(0x11, 0x01, struct.pack(A, low), None), hp]
-        lform = (0x17 if ver >= 4 else 0x06)
+        lform = 0x17 if ver >= 4 else (0x06 if fmt == 32 else 0x07)
+        O = E + ('I' if fmt == 32 else 'Q')
         fb = rng.choice([bytes([0x9c]), bytes([0x56]), bytes([0x77, 0x08])])
         cu.scope = (0x2e, [(0x03, 0x08, b'fn\0', None), (0x11, 0x01, struct.pack(A, low), None),
                            (0x12, 0x01, struct.pack(A, low + size), None) if ver < 4 else (0x12, 0x0f, uleb(size), None),
@@ -393,7 +405,14 @@ def gen_loc_file(rng):
                 x = rng.choice(exprs)
                 loc += struct.pack(A, a) + struct.pack(A, b) + struct.pack(E + 'H', len(x)) + x
             loc += struct.pack(A, 0) * 2
-            cu.add(0x34, [(0x02, lform, struct.pack(E + 'I', off), None)], label='v%d' % k)
+            cu.add(0x34, [(0x02, lform, struct.pack(O, off), None)], label='v%d' % k)
+        # a variable addressed from the frame base; sometimes behind the declaration of a nested function, which has no
+        # frame base of its own (readelf then notes '[without DW_AT_frame_base]')
+        if rng.random() < 0.5:
+            if rng.random() < 0.5:
+                cu.add(0x2e, [(0x3c, 0x0c, b'\x01', None)], label='nested_decl')
+            fe = bytes([0x91]) + sleb(rng.choice([-24, 16]))
+            cu.add(0x34, [(0x02, 0x0a if ver < 4 else 0x18, bytes([len(fe)]) + fe, None)], label='local')
         nr = rng.choice([0, 1, 2])
         for k in range(nr):
             off = len(rngs)
@@ -404,11 +423,11 @@ def gen_loc_file(rng):
                 pos = b
                 rngs += struct.pack(A, a) + struct.pack(A, b)
             rngs += struct.pack(A, 0) * 2
-            cu.add(0x0b, [(0x55, lform, struct.pack(E + 'I', off), None)])
+            cu.add(0x0b, [(0x55, lform, struct.pack(O, off), None)])
         u, ab, _ = cu.build(abbrev_base=len(abbrevs))
         info += u
         abbrevs += ab
-        shape.append((ver, nl, nr))
+        shape.append((ver, fmt, nl, nr))
     secs = {'.debug_info': info, '.debug_abbrev': abbrevs, '.debug_loc': bytes(loc)}
     if rngs:
         secs['.debug_ranges'] = bytes(rngs)
